@@ -40,11 +40,13 @@ pub fn oracle(tr: &Transition) -> Vec<Violation> {
         Op::Backup(_) => vec![
             (Flavor::Multi(2), None, "multi-thread-2"),
             (Flavor::Multi(8), None, "multi-thread-8"),
+            (Flavor::CurrentExitAtOnce, None, "process-exits-as-soon-as-the-operation-returns"),
         ],
         Op::Delete(_) | Op::Gc => vec![
             (Flavor::Multi(2), None, "multi-thread-2"),
             (Flavor::Multi(8), Some(vec![usize::MAX]), "multi-thread-8-reverse-deletion-order"),
             (Flavor::Current, Some(vec![usize::MAX]), "current-thread-reverse-deletion-order"),
+            (Flavor::CurrentExitAtOnce, None, "process-exits-as-soon-as-the-operation-returns"),
         ],
         _ => return v,
     };
@@ -103,7 +105,7 @@ pub fn on_state(st: &hist::HState, scratch: &crate::util::Scratch, _srcs: &crate
     ];
     for (bands, plan, name) in plans {
         let mut results = Vec::new();
-        for flavor in [Flavor::Current, Flavor::Multi(2), Flavor::Current] {
+        for flavor in [Flavor::Current, Flavor::Multi(2), Flavor::Current, Flavor::CurrentExitAtOnce] {
             let dir = scratch.fresh("pf");
             st.snap.store(&dir);
             let icpt = crate::hook::Icpt::new(&dir, plan.clone());
